@@ -65,7 +65,7 @@ func tcpPair() (net.Conn, net.Conn, error) {
 
 func TestTransportUpgrade(t *testing.T) {
 	rapid.Check(t, func(t *rapid.T) {
-		T := rapid.IntRange(0, 7).Draw(t, "T")                   // the honest node
+		T := rapid.IntRange(0, 7).Draw(t, "T")                    // the honest node
 		V := (T + rapid.IntRange(1, 7).Draw(t, "V")) % 8          // the identity it wants / is told
 		peerKey := (T + rapid.IntRange(1, 7).Draw(t, "peer")) % 8 // the key the peer really holds
 		claim := rapid.SampledFrom([]string{"own", "victim"}).Draw(t, "claim")
